@@ -1,6 +1,6 @@
 (* Props/C05.v - Clients decode exactly the values the application returned (text and binary). *)
 From Coq Require Import List Arith NArith ZArith Lia Bool.
-From MM Require Import Lib.Bytes Lib.Bitmap Lib.Decimal Model.Values Proofs.ValueProofs Gen.FactsResults.
+From MM Require Import Lib.Bytes Lib.Bitmap Lib.Decimal Model.Values Proofs.ValueProofs Gen.FactsResults Gen.FactsPackets.
 Import ListNotations.
 Open Scope N_scope.
 
@@ -13,7 +13,8 @@ Theorem c05_source_shape :
   results_infer_type_ok = true /\ results_ensure_result_cols_ok = true /\ results_ensure_result_set_ok = true /\
   results_nullbitmap_new_ok = true /\ results_nullbitmap_num_bytes_ok = true /\ results_nullbitmap_flip_ok = true /\
   results_nullbitmap_pos_ok = true /\ packets_make_text_resultset_row_ok = true /\ packets_make_binary_resultrow_ok = true /\
-  packets_make_column_definition_41_ok = true /\ packets_make_column_count_ok = true /\ types_str_len_ok = true.
+  packets_make_column_definition_41_ok = true /\ packets_make_column_count_ok = true /\ types_str_len_ok = true /\
+  types_fixed_width_ok = true /\ types_uint_len_ok = true.
 Proof. repeat split; reflexivity. Qed.
 
 (* durations: the decomposition into sign / hours / minutes / seconds / microseconds loses nothing - for every
